@@ -3,14 +3,17 @@ C11 — wire and storage encoding is canonical, lossless, and safe on arbitrary 
 
 Layer 1 (RLP framing): fully proved in Props/C11Rlp.lean
   dec_enc, enc_dec_canonical, decExact_canonical, enc_injective, enc_prefix_free, dec_total, alloc_bound, dec_progress.
-Layer 2 (libs/ser conventions, Model/Ser.lean): this file and Props/C11NoPanic.lean.  The full statements are kept as
-  `def … : Prop`; C11_no_panic_statement is proved (C11_no_panic, since fixes 8c7e349 / 2f1154b of /repo), the map
-  allocation clause is decMap_count_le; roundtrip is open (carried by the run), canonicity of foreign bytes is false
-  (counterexample below).
+Layer 2 (libs/ser conventions, Model/Ser.lean): this file, Props/C11NoPanic.lean (no decoder panics, map count bound),
+  Props/C11Map.lean (map order freedom), Props/C11Round.lean (Stream/readHead bridge, round trip of the fragment).
+  The full statements are kept as `def … : Prop`: C11_no_panic_statement is proved; C11_roundtrip_statement is false
+  ([1]byte zero, counterexample below) and proved for the fragment `Frag`; C11_canonical_statement is false for foreign
+  bytes (ParseInt leniency) and proved for encoder output of the fragment.
 -/
 import LinkVerif.Model.Ser
 import LinkVerif.Props.C11Rlp
 import LinkVerif.Props.C11NoPanic
+import LinkVerif.Props.C11Map
+import LinkVerif.Props.C11Round
 
 namespace Props.C11
 open Model.Rlp Model.Ser
@@ -49,6 +52,53 @@ theorem C11_canonical_counterexample : ¬ C11_canonical_statement := by
 theorem encode_nil_custom_panics (env : Env) (a : Bool) (t : Ty) :
     encodeBytes env (.cptr a t) [] .nil = .error .panic := by
   simp [encodeBytes, encV]
+
+/-! ### the round trip: false in general (a real defect of the [1]byte decoder), proved for the first-order fragment -/
+
+/-! `struct{A [1]byte; B uint64}{A:{0},B:7}` encodes to c2 00 07; decodeByteArray stores the 0x00 but, ignoring the error of
+    s.Uint(), does not consume it, so B reads 0x00 and fails with ErrCanonInt.  Replayed on the real code:
+    EncodeToBytes = c20007, DecodeBytes = "rlp: non-canonical integer (leading zero bytes) for uint64".  No registered type
+    contains a [1]byte (the reflection walk of the harness would report it in its descriptors). -/
+set_option maxRecDepth 100000 in
+theorem C11_roundtrip_counterexample : ¬ C11_roundtrip_statement := by
+  intro h
+  obtain ⟨v', hd, _⟩ := h {} (.struct [.bytearr 1, .uint 64]) (.list [.bytes [0], .u 7]) [0xC2, 0x00, 0x07] (by rfl)
+  have : decodeBytes {} (.struct [.bytearr 1, .uint 64]) false [0xC2, 0x00, 0x07] = .error .canonInt := by rfl
+  rw [this] at hd
+  cases hd
+
+/-- layer-2 round trip, stream form (`decV_encV`): for the fragment `Frag` (uint, bool, bytes, string, byte arrays,
+    big integers, structs of those, nested), whatever the encoder writes, the decoder - positioned anywhere, inside any
+    open lists that leave room, followed by any tail - reads back exactly, consuming exactly those bytes.  Decoder fuel
+    ≥ encoder fuel suffices (so fuel is never the reason for a failure on encoder output). -/
+theorem decV_encV (env : Env) (f g : Nat) (t : Ty) (v : Val) (b : Bytes) (hf : Frag t v) (he : encV env f t v = .ok b)
+    (hb : b.length < 2 ^ 64) (hg : f ≤ g) : RT env g t v b :=
+  (rt_frag env f t v b hf he hb g hg).1
+
+/-- layer-2 round trip, entry-point form: DecodeBytes (EncodeToBytes v) = v on the fragment.  `hfuel`: the encoder succeeds
+    with the fuel the decoder is given (2·|b|+200; automatic for types nested less than 200 deep). -/
+theorem C11_roundtrip_fragment (env : Env) (t : Ty) (v : Val) (b : Bytes) (hf : Frag t v)
+    (hfuel : encV env (2 * b.length + 200) t v = .ok b) (hb : b.length < 2 ^ 64) :
+    decodeBytes env t false b = .ok v := by
+  have hrt := decV_encV env _ (2 * b.length + 200) t v b hf hfuel hb (Nat.le_refl _)
+  obtain ⟨s', hd, hk, hr, hs⟩ := hrt { rest := b } [] rfl (by simp) (by simp [Room])
+  unfold decodeBytes
+  simp only [Bool.false_eq_true, if_false, hd, hr, List.isEmpty_nil, if_true]
+
+/-- canonicity of encoder output at layer 2 (fragment): decoding it and encoding the result gives the same bytes -/
+theorem C11_reencode_fragment (env : Env) (t : Ty) (v : Val) (b : Bytes) (hf : Frag t v)
+    (hfuel : encV env (2 * b.length + 200) t v = .ok b) (hb : b.length < 2 ^ 64) (f : Nat) (he : encV env f t v = .ok b) :
+    ∃ v', decodeBytes env t false b = .ok v' ∧ encV env f t v' = .ok b :=
+  ⟨v, C11_roundtrip_fragment env t v b hf hfuel hb, he⟩
+
+/-! non-vacuity: a nested struct of the fragment, its bytes, and the theorem applied to it -/
+example : decodeBytes {} (.struct [.uint 64, .struct [.bytes, .bool], .bigptr]) false [0xC6, 0x05, 0xC3, 0x81, 0xAA, 0x01, 0x80]
+    = .ok (.list [.u 5, .list [.bytes [0xAA], .b true], .ptr (.big false 0)]) :=
+  C11_roundtrip_fragment {} _ _ _
+    (.struct _ _ (.cons _ _ _ _ (.uint 64 5 (by decide) (by decide))
+      (.cons _ _ _ _ (.struct _ _ (.cons _ _ _ _ (.bytes _) (.cons _ _ _ _ (.bool true) .nil)))
+        (.cons _ _ _ _ (.bigptr 0) .nil))))
+    (by rfl) (by decide)
 
 /-! ### clauses that hold -/
 
